@@ -97,6 +97,35 @@ class Mod:
                         out.setdefault(local, (base, a.name))
         return out
 
+    def dead_helpers(self) -> List[ast.AST]:
+        """definitions of helpers that the normaliser inlined at every call site (nothing in the module refers to them any
+        more): their statements are analysed where they were spliced in, rules that scan whole modules skip the leftovers"""
+        if "_dead" in self.__dict__:
+            return self._dead
+        import re
+        out: List[ast.AST] = []
+        names = set()
+        for l in self.norm_log:
+            m = re.search(r"inlined new (?:expression )?helper (\S+) into", l)
+            if m:
+                names.add(m.group(1))
+        for q in names:
+            fn = self.defs.get(q)
+            if fn is None or not fn.name.startswith("_"):
+                continue
+            used = any((isinstance(n, ast.Name) and n.id == fn.name and isinstance(n.ctx, ast.Load)) or (isinstance(n, ast.Attribute) and n.attr == fn.name and isinstance(n.ctx, ast.Load))
+                       for n in ast.walk(self.tree))
+            if not used:
+                out.append(fn)
+        self._dead = out
+        return out
+
+    def in_dead_helper(self, node: ast.AST) -> bool:
+        d = self.dead_helpers()
+        if not d:
+            return False
+        return any(a is f for f in d for a in [node] + list(self.ancestors(node)))
+
     # -- navigation -------------------------------------------------------
     def fn(self, qualname: str) -> ast.AST:
         try:
